@@ -511,3 +511,56 @@ func scnPayaddrSwitch(ctx *check.JobCtx) {
 	w.Sample("payment-address switch with orders in flight: %s", traceSummary(w))
 	w.Finish()
 }
+
+// scnLonePledge: the network's only provider adds and withdraws capacity in amounts that are no multiples of the
+// pricing unit, down to (almost) nothing, with block rewards flowing: the begin blocker divides by the pool totals.
+func scnLonePledge(ctx *check.JobCtx) {
+	w := newLifeWorld(ctx, monitorsFor(ctx.Job.Prop)...)
+	w.BeginStates = true
+	r := w.Rng
+	np := chain.DefaultNodeParams()
+	np.BlockReward = sdk.NewInt64Coin(chain.Denom, 1000)
+	np.Baseline = sdk.NewInt64Coin(chain.Denom, 1) // one pledged coin already earns the full reward
+	np.HalvingPeriod = 2000
+	np.AdjustmentPeriod = 100
+	np.OfflineTriggerHeight = 1_000_000
+	sp := w.Acct("lone")
+	gen := w.StandardGenesis(np, []*actors.Account{sp}, 1_000_000_000, nil)
+	if err := w.Init(gen, 1); err != nil {
+		w.Finish()
+		return
+	}
+	w.CreateNode(sp)
+	w.ResetNode(sp, world.StatusAll, nil, "")
+	w.EndBlock()
+	plans := [][]uint64{
+		{3_000_000, 1_500_000, 1_500_000},
+		{2_000_000, 1_000_001, 999_999},
+		{5_000_000, 2_500_000, 2_500_000},
+		{4_000_000, 1_333_334, 1_333_333, 1_333_333},
+		{1_000_000, 1, 999_999},
+		{2_500_000, 1_250_000, 1_250_000},
+		{1, 1},
+		{6_000_000, 5_999_999, 1},
+	}
+	rounds := int(ctx.ArgInt("rounds", 6))
+	for k := 0; k < rounds && !w.Halted(); k++ {
+		plan := plans[(k+int(ctx.Job.Seed%8+8))%len(plans)]
+		w.AddVstorage(sp, plan[0])
+		w.EndBlock()
+		w.Advance(int64(1 + r.Intn(5)))
+		for _, rm := range plan[1:] {
+			e := w.RemoveVstorage(sp, rm)
+			w.Case("c02:lone-pledge:add=%d,remove=%d,ok=%v", plan[0], rm, e.OK)
+			w.EndBlock()
+			w.Advance(int64(1 + r.Intn(4)))
+		}
+		w.Claim(sp)
+		w.EndBlock()
+		// whatever capacity is left is withdrawn before the next plan: all of the pledge has to come back
+		withdrawAllProbe(w, sp)
+		w.Advance(3)
+	}
+	w.Sample("lone provider capacity plans: %s", traceSummary(w))
+	w.Finish()
+}
